@@ -830,7 +830,8 @@ fn gen_case(rng: &mut Rng) -> Case {
             ("abstract", l.clone(), format!("{}/{}", l, method))
         }
         12..=14 => {
-            let l = "tcp:127.0.0.1:@PORT@".to_string();
+            // IPv4 and (where the loopback has it) IPv6 literal addresses
+            let l = if rng.chance(1, 2) && TcpListener::bind("[::1]:0").is_ok() { "tcp:[::1]:@PORT@".to_string() } else { "tcp:127.0.0.1:@PORT@".to_string() };
             ("tcp", l.clone(), format!("{}/{}", l, method))
         }
         15..=16 => ("resolver", "unix:@DIR@/behind/resolver".to_string(), method.clone()),
